@@ -75,6 +75,9 @@ def judge(case) -> Verdict:
         else:
             extra = "10.0.0.0/24"
         lst = list(objs)
+        if case.get("pos", 0) % 4 == 1:
+            lst = lst[:case.get("shape", 0) % 2]  # the refused object alone, or with one neighbour: short lists have no shortcut
+            v.label("refusal-in-a-list-of-%d" % (len(lst) + 1))
         lst.insert(case.get("pos", 0) % (len(lst) + 1), extra)
         v.label(f"refusal-{bad}")
         v.nt()
